@@ -105,6 +105,14 @@ class _Timeout(Exception):
 
 
 def _on_alarm(signum, frame):
+    # never raise into the line tracer of the harness (lib._cov_start: coverage takes a lock in one callback and
+    # releases it in the next; an exception raised in between leaves it held and the worker deadlocks): try again a moment later
+    f, k = frame, 0
+    while f is not None and k < 4:
+        if "coverage" in f.f_code.co_filename:
+            signal.setitimer(signal.ITIMER_REAL, 0.002)
+            return
+        f, k = f.f_back, k + 1
     raise _Timeout()
 
 
@@ -117,8 +125,27 @@ def _depth():
     return n
 
 
+_memo = {}
+_timeouts = 0
+TIMER, TIMER_AFTER_A_TIMEOUT = 3.0, 0.5
+
+
 def run_infer(u, recursive):
-    """infer_redirection under a low recursion limit and a timer: a loop is an output, not a hang"""
+    """infer_redirection under a low recursion limit and a timer: a loop is an output, not a hang.
+    The function is pure: the outcome for (u, recursive) is memoised per process (correspondence, oracle, nontrivial and
+    classify ask for the same calls), and once a call has timed out in this process the timer is shortened (a call that
+    returns takes well under a millisecond) — so that a looping tree is reported in minutes, not hours."""
+    key = (u, recursive)
+    if key in _memo:
+        return _memo[key]
+    if len(_memo) > 4096:
+        _memo.clear()
+    r = _memo[key] = _run_infer(u, recursive)
+    return r
+
+
+def _run_infer(u, recursive):
+    global _timeouts
     from ural import infer_redirection
 
     old = sys.getrecursionlimit()
@@ -130,11 +157,12 @@ def run_infer(u, recursive):
     sys.setrecursionlimit(_depth() + LIMIT_EXTRA)
     try:
         if timer:
-            signal.setitimer(signal.ITIMER_REAL, 3.0)
+            signal.setitimer(signal.ITIMER_REAL, TIMER_AFTER_A_TIMEOUT if _timeouts else TIMER)
         return infer_redirection(u, recursive=recursive)
     except RecursionError:
         return {"error": "RecursionError"}
     except _Timeout:
+        _timeouts += 1
         return {"error": "Other:Timeout"}
     except Exception as e:  # noqa
         return lib.pyerr(e)
